@@ -108,6 +108,11 @@ more("C17", "One send may go out as several data packets; unsolicited credit upd
 more("C18", "One poll may handle several packets as long as all but the last are handled silently; a RST towards an address without connection is accepted.")
 more("C19", "Completions may be fetched in a batch and handed out one per call; a buffer whose completion was oversized may be given up or posted again.")
 
+more("C10", "queue_set is also issued on queues the device still has enabled, judged by what the device registers afterwards.")
+more("C14", "A blocking call behind a foreign completion must fail without taking it (bouncing platform; the run ends there).")
+more("C19", "A long-stream batch delivers several hundred input events per run.")
+more("C20", "Sound buffers range from one to forty periods.")
+
 TODO_REASON = "check not built yet in this round (planned, see DESIGN.md section 11); no claim is made"
 ALL = ["C%02d" % i for i in range(1, 21)]
 
